@@ -173,6 +173,8 @@ def execute(prop, tier, plan, seed, wdir):
         cov["steps_outside_model_range"] = cov.get("steps_outside_model_range", 0) + rep.get("oor", 0)
         cov["divergence_samples"] += rep["div"][:3]
         cov["unmodelled_sites"] = sorted(set(cov["unmodelled_sites"]) | set(rep.get("unmodelled", [])))
+        for site, n in (rep.get("sites") or {}).items():
+            cov.setdefault("impl_steps_per_site", {})[site] = cov.get("impl_steps_per_site", {}).get(site, 0) + n
         if len(cov["samples"]) < 4:
             sc = scenario_of_run(scen, 1) if scen else {"direct": b.get("direct"), "summary": batch}
             if sc:
